@@ -240,7 +240,7 @@ def run_history(cls, history, keyf=lambda r: r, is_set=False):
     return t
 
 
-def catalogue(cl, kind, N, maxdepth=40, cap=None):
+def catalogue(cl, kind, N, maxdepth=40, cap=None, sizes=None):
     """-> (dict template -> witness history, stats).  Uses int keys 0..N-1.
 
     The search runs the REAL code on concrete histories.  A history on which the
@@ -248,9 +248,19 @@ def catalogue(cl, kind, N, maxdepth=40, cap=None):
     expanded; it is recorded in stats['failed'] and turned by the property
     generators into a solver-run obligation (re-keyed history + full oracle), so
     that it is reported through the normal counterexample/replay channel."""
+    import json as _json
+    import os as _os
     is_set = kind == 'TreeSet'
     cls = cl[kind]
     leaf_types = (cl['Set'] if is_set else cl['Bucket'],)
+    # a history that KILLS the interpreter: the runner re-runs the generation with that history in the skip file
+    # (VERIF_SKIP_HIST); it is then treated like any other misbehaving history
+    histlog = _os.environ.get('VERIF_HISTLOG')
+    skip = set()
+    if _os.environ.get('VERIF_SKIP_HIST') and _os.path.exists(_os.environ['VERIF_SKIP_HIST']):
+        for rec in _json.load(open(_os.environ['VERIF_SKIP_HIST'])):
+            if rec[0] == kind and rec[1] == list(sizes or ()):
+                skip.add(tuple((o_, k_) for o_, k_ in rec[2]))
     seen = {('E',): ()}
     shapes = {('E',): ()}
     frontier = [()]
@@ -264,6 +274,13 @@ def catalogue(cl, kind, N, maxdepth=40, cap=None):
                 (present.add if op == 'i' else present.discard)(k)
             for k in range(N):
                 h2 = h + ((('d', k),) if k in present else (('i', k),))
+                if h2 in skip:
+                    if len(failed) < 50:
+                        failed.append((h2, 'the interpreter died on this history during the catalogue search'))
+                    continue
+                if histlog:
+                    with open(histlog, 'w') as f_:
+                        _json.dump([kind, list(sizes or ()), [list(x) for x in h2], N], f_)
                 try:
                     t = run_history(cls, h2, is_set=is_set)
                     a = raw(t, is_set, leaf_types)
